@@ -537,6 +537,13 @@ func (x *infeasible) cannotFail(k *ssa.Function, call *ssa.Call, depth int) (str
 			}
 			ok, _, _, gf := p.guardLift(call, hb, []string{fnName(t.Callee) + "(" + strings.Join(ps, ", ") + ") == nil"}, 0)
 			if !ok {
+				// not checked before: K fails only through H, so it is enough that H cannot fail inside K
+				if hc, isCall := ev.(*ssa.Call); isCall && depth < 3 {
+					if why, ok := x.cannotFail(origin(t.Callee), hc, depth+1); ok {
+						whys = append(whys, fmt.Sprintf("%s fails only through %s, and %s", shortFn(k), shortFn(t.Callee), why))
+						continue
+					}
+				}
 				debugf("cannotFail %s: no fact %s == nil at %s; facts %v", shortFn(k), ht.s, p.siteOf(call), atomStrings(gf))
 				return "", false
 			}
